@@ -15,7 +15,9 @@ static long long size_class(size_t n){ return n>=SMAX-15? -(long long)(SMAX-n)-1
 
 VH_DRIVER(memory){
   long episodes=atol(arg_value(argc,argv,"--n",g.thorough?"40000":"2500")); Rng R(g.seed);
-  static const size_t sizes[]={0,1,2,3,8,24,100,4096,4097,8192,70000,300000,SMAX-8,SMAX-7,SMAX-1,SMAX,SMAX/2+1};   // (large shrinks and growths across page and mmap thresholds too)
+  static const size_t sizes[]={0,1,2,3,8,24,100,4096,4097,8192,70000,300000,SMAX-8,SMAX-7,SMAX-1,SMAX,SMAX/2+1,
+  // fractions of SIZE_MAX: whatever multiple or sum of the request an implementation forms (n + n/2, 2n, n + header) wraps for some of these
+  SMAX/3*2+1,SMAX/3*2+2,SMAX/3*2+6,SMAX/3+1,SMAX/4*3+1,SMAX/2,SMAX/2-7,SMAX/5*4+3,SMAX/3*2,SMAX/4+1};   // (large shrinks and growths across page and mmap thresholds too)
   static const size_t fact[]={0,1,2,3,7,16,300,4097,SMAX/2+1,SMAX/4+2,SMAX,(size_t)1<<32,((size_t)1<<32)+1,(size_t)1<<33};
   for(long ep=0;ep<episodes;++ep){
     Backend be; UriMemoryManager mm; memset(&mm,0,sizeof mm); if(uriCompleteMemoryManager(&mm,&be.mm)!=URI_SUCCESS){ g.violation(J().str("prop","C15").str("why","uriCompleteMemoryManager failed on a malloc/free backend").done()); return 0; }
@@ -27,7 +29,7 @@ VH_DRIVER(memory){
     for(int s=0;s<=steps;++s){
       bool closing=(s==steps); if(closing&&live.empty()) break;
       int kind= closing? 4 : R.below(5); if(closing) --s; // drain: free everything at the end
-      size_t n=sizes[R.below(17)], a=fact[R.below(14)], b=fact[R.below(14)]; if(R.below(3)){ a=fact[R.below(8)]; b=fact[R.below(8)]; if(R.below(2)) n=sizes[R.below(12)]; }
+      size_t n=sizes[R.below(27)], a=fact[R.below(14)], b=fact[R.below(14)]; if(R.below(3)){ a=fact[R.below(8)]; b=fact[R.below(8)]; if(R.below(2)) n=sizes[R.below(12)]; }
       int pi= live.empty()? -1 : R.below((int)live.size()+ (closing?0:1)) ; if(pi>=(int)live.size()) pi=-1; if(closing) pi=0;
       UB old= pi>=0? live[pi] : UB{nullptr,0,0,0};
       size_t tot=0; bool ovf=__builtin_mul_overflow(a,b,&tot); size_t req= (kind==1||kind==3)? tot : n; bool hdrovf= req>SMAX-4096;   /* "huge": no header of any plausible size fits on top */
